@@ -164,6 +164,25 @@ func TestC21(t *testing.T) {
 	base := fastBase(t)
 	segProb := ev.Pick(12, 4)
 
+	// concurrent tier: the state right before a clean stop vs. after reopening, when the history
+	// was written by several goroutines at once (2..4 writers and a bulk importer)
+	{
+		p, replay, done, muts := concurrentWritersThenRestart(base, ev.ShardSeed(), ev.Pick(40, 600))
+		rec.Add("concurrent_rounds", int64(done))
+		rec.Add("concurrent_mutations", muts)
+		switch {
+		case p != "" && len(p) > 13 && p[:13] == "precondition:":
+			rec.Inconclusive("concurrent-tier-precondition")
+			t.Logf("concurrent tier: %s", p)
+		case p != "":
+			rec.Fail(t, "aof-restart-changed-state-after-concurrent-writers", replay, "%s", p)
+		default:
+			rec.Case(true, "concurrent-writers-then-restart", func() any {
+				return map[string]any{"scenario": "2..4 writers (Put/Delete/PrefixAppend/PrefixRemove/RemoveKeys over 125 keys) and a bulk importer (3..6 Imports of 40..120 keys) run concurrently; clean Stop; reopen; every key compared", "rounds": done, "mutations": muts}
+			}, "tier:concurrent-writers-then-restart")
+		}
+	}
+
 	ev.RapidCheck(t, 250, 4000, func(t *rapid.T) {
 		big := rapid.IntRange(0, 2).Draw(t, "big") == 0
 		crossSegment := rapid.IntRange(1, segProb).Draw(t, "crossSegment") == 1
